@@ -50,7 +50,7 @@ class ReplaceTag(Tag):
         self.replacement = replacement
 
     def process(self, file: File, context: Optional[str]) -> str:
-        assert context
+        assert context is not None
         return self.pattern.sub(self.replacement, context)
 
 
